@@ -52,15 +52,17 @@ struct LowerCtx {
     stage: Stage,
     diagnostics: Diagnostics,
     constructor_names: HashSet<String>,
+    variant_names: HashSet<String>,
 }
 
 impl LowerCtx {
     fn new(file: &cst::File) -> Self {
-        let constructor_names = collect_constructor_names(file);
+        let (constructor_names, variant_names) = collect_constructor_names(file);
         Self {
             stage: Stage::other("lower"),
             diagnostics: Diagnostics::new(),
             constructor_names,
+            variant_names,
         }
     }
 
@@ -80,10 +82,19 @@ impl LowerCtx {
     fn is_constructor(&self, ident: &ast::AstIdent) -> bool {
         self.constructor_names.contains(&ident.0)
     }
+
+    /// A bare identifier in pattern position can only name an enum variant: a struct has no
+    /// pattern without field syntax, so its name stays free for binders.
+    fn is_variant(&self, ident: &ast::AstIdent) -> bool {
+        self.variant_names.contains(&ident.0)
+    }
 }
 
-fn collect_constructor_names(file: &cst::File) -> HashSet<String> {
+/// The names that construct a value in this file (enum variants and structs), and the enum
+/// variants among them.
+fn collect_constructor_names(file: &cst::File) -> (HashSet<String>, HashSet<String>) {
     let mut constructor_names = HashSet::new();
+    let mut variant_names = HashSet::new();
 
     for item in file.items() {
         match item {
@@ -92,6 +103,7 @@ fn collect_constructor_names(file: &cst::File) -> HashSet<String> {
                     for variant in list.variants() {
                         if let Some(token) = variant.uident() {
                             constructor_names.insert(token.to_string());
+                            variant_names.insert(token.to_string());
                         }
                     }
                 }
@@ -105,7 +117,7 @@ fn collect_constructor_names(file: &cst::File) -> HashSet<String> {
         }
     }
 
-    constructor_names
+    (constructor_names, variant_names)
 }
 
 pub fn lower(node: cst::File) -> LowerResult {
@@ -1980,7 +1992,7 @@ fn lower_pat(ctx: &mut LowerCtx, node: cst::Pattern) -> Option<ast::Pat> {
                 return None;
             };
             let ident = ast::AstIdent(name.to_string());
-            if ctx.is_constructor(&ident) {
+            if ctx.is_variant(&ident) {
                 Some(ast::Pat::PConstr {
                     constructor: ast::Path::from_ident(ident),
                     args: Vec::new(),
